@@ -89,6 +89,12 @@ impl PulledMessage {
     }
 }
 
+/// The instant that deadline rounding is relative to, for the verification harness.
+#[cfg(deltio_verif)]
+pub fn verif_rounding_epoch() -> Instant {
+    *EPOCH
+}
+
 impl AckDeadline {
     /// Creates a new `AckDeadline`.
     pub fn new(time: &Instant) -> Self {
